@@ -3,9 +3,24 @@
    Proof/RegpSpecLemmas.v, Proof/RegpFraming.v; model Model/Regp.v; independent reading of doc/regp.txt: Model/RegpSpec.v. *)
 From Ufw Require Import Base.Bits Base.Errno Model.Crc Model.ByteBuffer Model.Endpoints Model.Varint Model.Slip Model.Lenp
   Model.Regp Model.RegpSpec Proof.LenpLemmas Proof.RegpFraming Proof.RegpLemmas Proof.RegpSpecLemmas.
+From Coq Require Import ZArith String List.
+From Ufw Require Import Base.Cexpr Gen.Consts Gen.RegpMotvGen Proof.RegpMotvSweep Proof.RegpMotvT.
 From Coq Require Import Bool Lia.
 Local Open Scope N_scope.
 Local Open Scope bool_scope.
+
+(* TRANSLATOR TIE (Gen/RegpMotvGen.v is regenerated from src/register-protocol.c on every check): the first header word that make_motv assembles with shifts and ors in 16/32-bit arithmetic - version, frame type, option bits, meta code - is the number the model computes, for every instance, memory semantics, meta code (8 bits, of which the frame keeps 4), frame type and block size; the enumeration constants and MSEM_* macros are the ones tools/consts2coq.py reads from the source *)
+Theorem C08_T_first_header_word :
+  forall (p : regp) (ms : msem) (meta type n : N),
+         meta < 256 ->
+         type < 16 ->
+         eval
+           (envM (Z.of_N c_RP_MEMTYPE_8) (Z.of_N c_RP_MEMTYPE_16) (Z.of_N c_RP_EP_SERIAL) (Z.of_N c_RP_EP_TCP)
+              (Z.of_N c_RP_FRAME_READ_REQUEST) (Z.of_N c_MSEM_AUTO) (Z.of_N c_MSEM_8BIT) (Z.of_N c_MSEM_16BIT)
+              (g_mem16 p) (g_serial p) ms (Z.of_N meta) (Z.of_N type) (Z.of_N n)) (fun _ : string => []) c_make_motv =
+         Z.of_N (make_motv p ms meta type n).
+Proof. exact (@make_motv_tie_source). Qed.
+Print Assumptions C08_T_first_header_word.
 
 (* every emitter (read/write requests 8/16 bit, acknowledge, eleven error responses, meta) sends framing(header ++ payload) of one header encoder *)
 Theorem C08_emitters_are_conforming_frames :
@@ -53,7 +68,7 @@ Print Assumptions C08_frame_accepted.
 (* framing round trip on both transports: SLIP (serial) and varint length prefix (TCP), any payload octets incl. SLIP control characters, any rest of stream *)
 Theorem C08_deframe :
   forall (p : regp) (oct : bool) (hdr pl r : list N) (calls : N),
-         N.of_nat (length (hdr ++ pl)) < 2 ^ 64 ->
+         N.of_nat (Datatypes.length (hdr ++ pl)) < 2 ^ 64 ->
          exists calls' : N,
            deframe p (plain_src oct (frame_wire p hdr pl ++ r) calls) = Some (None, hdr ++ pl, plain_src oct r calls').
 Proof. exact (@deframe_frame_wire). Qed.
@@ -64,7 +79,8 @@ Theorem C08_received_by_own_receiver :
   forall (p q : regp) (ms : msem) (type meta seq addr n : N) (pl : list N) (oct : bool) (r : list N) (calls : N),
          g_serial q = g_serial p ->
          conforming p ms type meta seq addr n pl ->
-         N.of_nat (length (encode_header p ms type meta seq addr n (crc pl) ++ pl)) <= g_blocksize q - SIZEOF_RPFRAME ->
+         N.of_nat (Datatypes.length (encode_header p ms type meta seq addr n (crc pl) ++ pl)) <=
+         g_blocksize q - SIZEOF_RPFRAME ->
          exists calls' : N,
            regp_recv q (plain_src oct (frame_wire p (encode_header p ms type meta seq addr n (crc pl)) pl ++ r) calls)
              true =
@@ -96,7 +112,7 @@ Print Assumptions C08_wire_is_what_the_document_prescribes.
 Theorem C08_sequence_numbers :
   forall (rs : list request) (p : regp),
          g_seq p < 65536 ->
-         snd (do_requests p rs) = with_seq p ((g_seq p + N.of_nat (length rs)) mod 65536) /\
+         snd (do_requests p rs) = with_seq p ((g_seq p + N.of_nat (Datatypes.length rs)) mod 65536) /\
          (forall (k : nat) (r : request),
           nth_error rs k = Some r ->
           nth_error (fst (do_requests p rs)) k =
